@@ -181,6 +181,29 @@ def replay_sw_{tag}({", ".join(["val"] + ks)}):
     args = {args}
     return replay_fn("#switch", args, r_switch(args))
 ''')
+    # later duplicates win: skeletons of 2 (thorough 3) arguments over {named, positional}; names and values symbolic
+    for n in ((2,) if quick else (2, 3)):
+        for sk in itertools.product("NP", repeat=n):
+            if "N" not in sk:
+                continue
+            skel = "".join(sk)
+            nn = skel.count("N")
+            ps = [f"n{i}: str" for i in range(nn)] + [f"v{i}: str" for i in range(n)]
+            pre = " and ".join([f'len(n{i}) == 1 and n{i}[0] in "ab12"' for i in range(nn)] + [f'len(v{i}) == 1 and v{i}[0] in "xy "' for i in range(n)])
+            names = "[" + ", ".join(f"n{i}" for i in range(nn)) + "]"
+            values = "[" + ", ".join(f"v{i}" for i in range(n)) + "]"
+            out.append(f'''
+def dup_{skel}({", ".join(ps)}) -> bool:
+    """
+    pre: {pre}
+    post: _
+    """
+    return dup_binding_ok({skel!r}, {names}, {values})
+
+
+def replay_dup_{skel}({", ".join(p.split(":")[0] for p in ps)}):
+    return replay_dup_binding({skel!r}, {names}, {values})
+''')
     out.append('''
 def autonewline(t: str) -> bool:
     """
@@ -468,6 +491,7 @@ def run(rep: C.Report) -> None:
             H,
             {
                 "^body_": dict(name="Ob1 only the includable part of a template body is transcluded", functions=["core.py:Wtp._template_to_body"], bounds="4 (thorough 11) body skeletons with one symbolic filler character over {a,space,newline,<,>,-,/} before, between and after the tags"),
+                "^dup_": dict(name="Ob8 arguments are bound left to right: later duplicates win, positional arguments are numbered independently of named ones", functions=["core.py:Wtp.expand argument loop (AST slice)"], bounds=f"argument lists of 2{'' if quick else '..3'} over {{named, positional}}; names 1 symbolic char over {{a,b,1,2}}, values 1 symbolic char over {{x,y,space}}"),
                 "^bind_": dict(name="Ob7 an argument passed as name=value is found by {{{name}}}: the expander's key and the reference's key agree", functions=["core.py:Wtp.expand argument loop (AST slice)", "core.py:Wtp.expand.expand_args (AST slice)"], bounds=f"names of 1..{2 if quick else 3} symbolic chars over {{0,1,a,space}}"),
                 "^param_": dict(name="Ob2 parameter references: trimmed name, positional numerals, default, literal when undefined", functions=["core.py:Wtp.expand.expand_args (AST slice)"], bounds=f"names of 1..{3 if quick else 4} symbolic chars over {{space,1,2,a,b,newline}}, with/without default, fixed argument map"),
                 "^fn_|^sw_": dict(name="Ob3 #if / #ifeq / #switch follow the ParserFunctions rules", functions=["parserfns.py:if_fn", "parserfns.py:ifeq_fn", "parserfns.py:switch_fn"], bounds=f"#if/#ifeq: 0..4 arguments <= 2 symbolic chars; #switch: every case skeleton of 1..{2 if quick else 3} items over {{k=v, fall-through, #default=v, #default}} with symbolic keys and value, plus {'the 3-item skeletons that start with a fall-through case and three 4-item groups' if quick else 'four longer fall-through groups'}"),
